@@ -48,3 +48,10 @@ Proof.
   intros Hn. apply Hk. simpl. rewrite Hn. reflexivity.
 Qed.
 Print Assumptions C35_update_follows_the_flag.
+
+(* ---- non-vacuity: concrete non-trivial programs and traces meeting the hypotheses above (proofs/GFIWitness.v) ---- *)
+From Proofs Require Import GFIWitness.
+Example C35_hypotheses_met : wfg ex_g /\ wft ex_g ex_t /\
+  exists t' w b, edit ex_g ex_k2 ex_t (RUpdate ex_c) ex_a' ex_tg = Ok (t', w, b) /\ t' <> ex_t /\ w <> 0.
+Proof. exact (conj ex_wfg (conj ex_wft ex_update_succeeds)). Qed.
+Print Assumptions C35_hypotheses_met.
